@@ -122,7 +122,7 @@ class Ctx:
         meta = os.path.join(self.scratch, "meta%d" % self._nmeta)
         e = dict(os.environ)
         # many TLC processes run side by side: keep each JVM's helper threads few
-        e["JAVA_TOOL_OPTIONS"] = (e.get("JAVA_TOOL_OPTIONS", "") + " -XX:ParallelGCThreads=2 -XX:CICompilerCount=2").strip()
+        e["JAVA_TOOL_OPTIONS"] = (e.get("JAVA_TOOL_OPTIONS", "") + " -XX:ParallelGCThreads=2 -XX:CICompilerCount=2 -Xss256m").strip()
         if deque:
             e["JAVA_TOOL_OPTIONS"] = (e.get("JAVA_TOOL_OPTIONS", "") + " -Dtlc2.tool.queue.IStateQueue=StateDeque").strip()
         if env:
